@@ -1,6 +1,6 @@
 use ebml_iterable_specification::{EbmlSpecification, EbmlTag};
 use std::convert::TryInto;
-use crate::{tag_iterator_util::EBMLSize::{Known, Unknown}, spec_util::is_ended_by};
+use crate::tag_iterator_util::EBMLSize::{Known, Unknown};
 
 #[derive(Copy, Clone, Debug, Eq, PartialEq, Hash)]
 pub enum EBMLSize {
@@ -55,12 +55,6 @@ pub struct ProcessingTag<TSpec>
     pub size: EBMLSize,
     pub tag_start: usize,
     pub data_start: usize,
-}
-
-impl<TSpec> ProcessingTag<TSpec> where TSpec: EbmlSpecification<TSpec> + EbmlTag<TSpec> + Clone {
-    pub fn is_ended_by(&self, id: u64) -> bool {
-        is_ended_by::<TSpec>(self.tag.get_id(), id)
-    }
 }
 
 pub const DEFAULT_BUFFER_LEN: usize = 1024 * 64;
